@@ -64,7 +64,7 @@ theorem zero_power_announced_as_removal_witness :
 
 /-! ### the genesis state -/
 
-theorem initChain_lists (g : Genesis) : (initChain g).allDelegs = [] ∧ (initChain g).lastVals = [] := by
+theorem initChain_lists (g : Genesis) : (initChain g).allDelegs = [] ∧ (initChain g).lastVals = [] ∧ (initChain g).active = g.params := by
   unfold initChain
   simp only
   have h := foldl_vl (fun (acc : St) (x : Hex × Hex × Int) =>
@@ -79,10 +79,10 @@ theorem initChain_lists (g : Genesis) : (initChain g).allDelegs = [] ∧ (initCh
     { chainId := g.chainId, active := g.params, params := ({} : Led Params).set true zeroHash g.params }
   have h3 := h.trans h2
   simp only [VL, Prod.mk.injEq] at h3
-  exact ⟨h3.1, h3.2.1⟩
+  exact ⟨h3.1, h3.2.1, h3.2.2⟩
 
 theorem initChain_valsetOK (f : Hex → Hex) (g : Genesis) : ValsetOK f (initChain g) := by
-  obtain ⟨h1, h2⟩ := initChain_lists g
+  obtain ⟨h1, h2, _⟩ := initChain_lists g
   constructor
   · rw [h1]; exact List.Pairwise.nil
   · rw [h2]; exact List.Pairwise.nil
